@@ -180,15 +180,13 @@ func runC02R2(c *eng.Ctx, r *eng.RuleCtx) {
 		info := f.Pkg.TypesInfo
 		g := p.GraphOf(f)
 		// staging loop over the listed items
-		var loop *ast.RangeStmt
-		eng.InspectNoLit(f.Decl.Body, func(n ast.Node) bool {
-			if rs, ok := n.(*ast.RangeStmt); ok {
-				if s, isS := ast.Unparen(rs.X).(*ast.SelectorExpr); isS && s.Sel.Name == "Items" {
-					loop = rs
-				}
-			}
-			return true
-		})
+		var loop ast.Stmt
+		for _, el := range elemLoopsOver(info, f.Decl.Body, func(x ast.Expr) bool {
+			s, isS := ast.Unparen(x).(*ast.SelectorExpr)
+			return isS && s.Sel.Name == "Items"
+		}) {
+			loop = el.Stmt
+		}
 		var staged types.Object
 		okStage := false
 		if loop != nil {
@@ -208,17 +206,13 @@ func runC02R2(c *eng.Ctx, r *eng.RuleCtx) {
 				return eng.IsField(info, ix.X, cached)
 			}
 			// error returns are the only way around
-			var bodyEntry *eng.GNode
-			for _, gn := range g.Nodes {
-				if gn.Node == nil && gn.Block.Stmt == ast.Stmt(loop) && gn.Block.Kind.String() == "RangeBody" {
-					bodyEntry = gn
-				}
-			}
+			bodyEntry := loopBodyEntryOf(g, loop)
+			isHead := isLoopHeadOf(loop)
 			if bodyEntry != nil {
 				okStage = true
 				reach := g.Reach(eng.Query{From: []*eng.GNode{bodyEntry}, AvoidNode: isStage})
 				for m := range reach {
-					if m.Node == nil && m.Block.Stmt == ast.Stmt(loop) && m.Block.Kind.String() == "RangeLoop" {
+					if isHead(m) {
 						okStage = false
 					}
 				}
@@ -454,13 +448,10 @@ func runC02R4(c *eng.Ctx, r *eng.RuleCtx) {
 	r.Check(freshSnap && nSnapAssign > 0, f.Key+" fresh-snapshots-map", f.Decl.Pos(), "each context gets its own new snapshots map", "a binding context does not get its own freshly built `snapshots` map (a map memoised by binding name is shared): contexts of different binding types with the same name receive each other's snapshot keys")
 	// keys: one per element of getIncludeSnapshotsFrom(bc.Metadata.BindingType, bc.Binding)
 	okKeys := false
-	eng.InspectNoLit(f.Decl.Body, func(x ast.Node) bool {
-		rs, ok := x.(*ast.RangeStmt)
-		if !ok || rs.Value == nil {
-			return true
-		}
-		src := rs.X
-		if v, isV := eng.SelObj(info, rs.X).(*types.Var); isV && !v.IsField() {
+	for _, el := range elemLoopsOver(info, f.Decl.Body, func(ast.Expr) bool { return true }) {
+		el := el
+		src := el.Base
+		if v, isV := eng.SelObj(info, el.Base).(*types.Var); isV && !v.IsField() {
 			as := eng.AssignedExprs(info, f.Decl.Body, v)
 			if len(as) == 1 {
 				src = as[0]
@@ -468,24 +459,22 @@ func runC02R4(c *eng.Ctx, r *eng.RuleCtx) {
 		}
 		cl, isC := ast.Unparen(src).(*ast.CallExpr)
 		if !isC || eng.CalleeOf(info, cl) != getIncl || len(cl.Args) != 2 {
-			return true
+			continue
 		}
 		s0, ok0 := ast.Unparen(cl.Args[0]).(*ast.SelectorExpr)
 		s1, ok1 := ast.Unparen(cl.Args[1]).(*ast.SelectorExpr)
 		if !(ok0 && ok1 && s0.Sel.Name == "BindingType" && s1.Sel.Name == "Binding") {
-			return true
+			continue
 		}
-		elem := eng.SelObj(info, rs.Value)
-		okKeys = loopNoEarlyExit(g, rs) && loopBodyMustPass(g, rs, func(m *eng.GNode) bool {
+		okKeys = loopNoEarlyExit(g, el.Stmt) && loopBodyMustPass(g, el.Stmt, func(m *eng.GNode) bool {
 			as, isA := m.Node.(*ast.AssignStmt)
 			if !isA || len(as.Lhs) != 1 {
 				return false
 			}
 			ix, isIx := ast.Unparen(as.Lhs[0]).(*ast.IndexExpr)
-			return isIx && eng.SelObj(info, ix.Index) == elem && (eng.IsField(info, ix.X, snapshotsFld) || eng.SelObj(info, ix.X) != nil)
+			return isIx && el.IsElem(ix.Index) && (eng.IsField(info, ix.X, snapshotsFld) || eng.SelObj(info, ix.X) != nil)
 		})
-		return true
-	})
+	}
 	r.Check(okKeys, f.Key+" one-key-per-included-binding", f.Decl.Pos(), "one snapshots key for every name in getIncludeSnapshotsFrom(type, binding)", "the keys of `snapshots` are not exactly the bindings listed for this context's (type, name)")
 }
 
@@ -536,21 +525,15 @@ func runC02R5(c *eng.Ctx, r *eng.RuleCtx) {
 		for _, fld := range []string{"OnKubernetesEvents", "Schedules", "KubernetesValidating", "KubernetesMutating", "KubernetesConversion"} {
 			fv := p.Field(pkgCfg, "HookConfig", fld)
 			ok := false
-			eng.InspectNoLit(f.Decl.Body, func(n ast.Node) bool {
-				rs, isR := n.(*ast.RangeStmt)
-				if !isR || !eng.IsField(info, rs.X, fv) || rs.Value == nil {
-					return true
-				}
-				elem := eng.SelObj(info, rs.Value)
-				for _, call := range callsIn(info, rs.Body, isObj(merge)) {
+			for _, el := range elemLoopsOver(info, f.Decl.Body, func(x ast.Expr) bool { return eng.IsField(info, x, fv) }) {
+				for _, call := range callsIn(info, el.Body, isObj(merge)) {
 					if len(call.Args) == 2 {
-						if s, isS := ast.Unparen(call.Args[0]).(*ast.SelectorExpr); isS && s.Sel.Name == "IncludeSnapshotsFrom" && eng.SelObj(info, s.X) == elem {
+						if s, isS := ast.Unparen(call.Args[0]).(*ast.SelectorExpr); isS && s.Sel.Name == "IncludeSnapshotsFrom" && el.IsElem(s.X) {
 							ok = true
 						}
 					}
 				}
-				return true
-			})
+			}
 			r.Check(ok, f.Key+" group-merge "+fld, f.Decl.Pos(), "MergeArrays(cfg.IncludeSnapshotsFrom, group snapshots)", "bindings of kind "+fld+" that share a group do not receive the snapshots of the group's kubernetes bindings")
 		}
 	}
